@@ -30,7 +30,7 @@ ASSUMPTIONS = [
     "interleavings at line granularity of pure-Python statham frames under the GIL; C-level operations are atomic; no claim for free-threaded builds",
     "the free-running stress can only miss violations, never invent them (if the property holds no schedule can produce a mismatch)",
 ]
-BUDGET = {"quick": 150, "thorough": 1500}
+BUDGET = {"quick": 260, "thorough": 2000}
 
 observe.register_formats()
 CFG = R.RCfg(depth=2)
